@@ -7,3 +7,6 @@ Definition core_eval (labs : list label) (atoms : list atom) (fuel : nat) (cs : 
   evalNode labs atoms fuel cs.
 Definition core_err := res_err.
 Definition core_concrete := res_concrete.
+
+From Verif Require Import Core.Disj.
+Definition core_eval_disj := eval_disj.
